@@ -41,7 +41,11 @@ func H_C03_addressing() {
 	for s := 0; s < steps; s++ {
 		w := vxrt.Choice("who", 2)
 		o := 1 - w
-		switch vxrt.Choice("action", 5) {
+		switch vxrt.Choice("action", 6) {
+		case 5: // a call whose slot is missing while creation is not allowed: fails, keeps its ordinal
+			cNo := WithConfig(Dir(dir), Filename("f"), Update(false))
+			cNo.MatchSnapshot(ts[w], "v")
+			ord[w]++
 		case 0: // a passing or creating call
 			ts[w].errors = nil
 			c.MatchSnapshot(ts[w], "v")
@@ -200,4 +204,15 @@ func H_C03_mention() {
 	ta.end()
 	tb2.end()
 	vxrt.Assert(len(ta.errors)+len(tb2.errors) == 0 && len(ta.logs)+len(tb2.logs) == 0, "C03:other-entry-value-unchanged")
+	// the mentioned slot is then updated: the new value lands in that slot, the mentioning entry stays as it was
+	cu := WithConfig(Dir(dir), Filename("f"), Update(true))
+	tb3 := vxNewT("TestB")
+	if api == 0 {
+		cu.MatchSnapshot(tb3, "b: newer")
+	} else {
+		cu.MatchYAML(tb3, "b: newer")
+	}
+	tb3.end()
+	vxrt.Assert(len(tb3.errors) == 0, "C03:update-succeeds")
+	vxrt.Assert(vxReadFile(path) == vxFrame("TestA - 1", bodyA)+vxFrame("TestB - 1", "b: newer"), "C03:updated-entry-replays")
 }
